@@ -124,7 +124,7 @@ def setcover_spec(draw):
     V = [[U[e] for e in range(n) if (m >> e) & 1] for m in masks]
     weights = None
     if draw(st.booleans()):
-        weights = [draw(st.sampled_from([0.25, 0.5, 0.75, 1])) for _ in range(N)]
+        weights = [draw(st.sampled_from([0.25, 0.5, 0.75, 1, 0.25, 0.5, 0.75, 1, 0])) for _ in range(N)]
         weights[draw(st.integers(0, N - 1))] = 1
     log_trick = draw(st.booleans()) or (hub and draw(st.booleans()))
     need = max(sum((m >> e) & 1 for m in masks) for e in range(n))
@@ -299,6 +299,7 @@ class SetCoverA(Adapter):
         V = (list if spec["vtype"] == "list" else tuple)(set(v) for v in spec["V"])
         self.N = len(V)
         ws = spec["weights"]
+        self.spec_weights = list(ws) if ws else None
         self.ws = [1] * self.N if ws is None else list(ws)
         kw = {"log_trick": bool(spec["log_trick"])}
         if ws is not None:
@@ -864,6 +865,8 @@ def _all_labels_used(ad):
             return False                    # linear and pair coefficients may cancel
         if ad.name == "GraphPartitioning" and tag.startswith("default"):
             return False                    # A = B/4 cancels the coupling of a degree-1 edge
+        if ad.name == "SetCover" and any(w == 0 for w in (getattr(ad, "spec_weights", None) or [])):
+            return False                    # a subset of weight 0 that covers nothing occurs in no term
         return True
     return f
 
